@@ -18,6 +18,8 @@
 #include <foonathan/memory/memory_pool_collection.hpp>
 #include <foonathan/memory/memory_resource_adapter.hpp>
 #include <foonathan/memory/segregator.hpp>
+#include <foonathan/memory/smart_ptr.hpp>
+#include <functional>
 #include <foonathan/memory/tracking.hpp>
 
 #include <verif/child.hpp>
@@ -243,6 +245,13 @@ namespace
         virtual void* ta(std::size_t n, std::size_t sz, std::size_t al)       = 0;
         virtual bool  tdn(void* p, std::size_t sz, std::size_t al)            = 0;
         virtual bool  tda(void* p, std::size_t n, std::size_t sz, std::size_t al) = 0;
+        // object-creating helpers on top of the composition (deleters, unique_ptr, shared_ptr):
+        // creates the object, returns its address, shape of the request and a function that releases it
+        virtual bool smart(const std::string&, int, std::size_t, void*&, std::size_t&, std::size_t&, std::size_t&,
+                           std::function<void()>&)
+        {
+            return false;
+        }
         // free capacity of the library pool inside a mixed composition, for the bucket serving sz
         virtual long long pool_free(std::size_t)
         {
@@ -250,7 +259,74 @@ namespace
         }
     };
 
-    template <class A, bool AllowComposable = true>
+    // value types for the smart pointer helpers
+    struct PBase
+    {
+        virtual ~PBase() {}
+        int tag = 7;
+    };
+    template <std::size_t Size, std::size_t Align>
+    struct alignas(Align) PObj : PBase
+    {
+        unsigned char pad[Size];
+        PObj()
+        {
+            pad[0] = 1;
+        }
+    };
+    template <std::size_t Size, std::size_t Align>
+    struct alignas(Align) Plain
+    {
+        unsigned char pad[Size];
+    };
+
+    template <class T, class A>
+    bool make_smart(A& a, const std::string& kind, std::size_t n, void*& p, std::size_t& cnt, std::size_t& sz, std::size_t& al,
+                    std::function<void()>& rel)
+    {
+        sz  = sizeof(T);
+        al  = alignof(T);
+        cnt = 1;
+        if (kind == "uq")
+        {
+            auto sp = std::make_shared<decltype(fm::allocate_unique<T>(a))>(fm::allocate_unique<T>(a));
+            p       = sp->get();
+            rel     = [sp] { sp->reset(); };
+            return true;
+        }
+        if (kind == "ua")
+        {
+            auto sp = std::make_shared<decltype(fm::allocate_unique<T[]>(a, n))>(fm::allocate_unique<T[]>(a, n));
+            p       = sp->get();
+            cnt     = n;
+            rel     = [sp] { sp->reset(); };
+            return true;
+        }
+        if (kind == "sh")
+        {
+            auto sp = std::make_shared<std::shared_ptr<T>>(fm::allocate_shared<T>(a));
+            p       = sp->get();
+            sz      = 0; // the control block is bigger than T: only "at least" can be said
+            rel     = [sp] { sp->reset(); };
+            return true;
+        }
+        return false;
+    }
+    template <class D, class A>
+    bool make_base(A& a, void*& p, std::size_t& cnt, std::size_t& sz, std::size_t& al, std::function<void()>& rel)
+    {
+        sz  = sizeof(D);
+        al  = alignof(D);
+        cnt = 1;
+        // unique_ptr<Derived> converted to unique_base_ptr<Base>: the deleter has to remember size and alignment
+        fm::unique_base_ptr<PBase, A> b = fm::allocate_unique<D>(a);
+        auto sp = std::make_shared<fm::unique_base_ptr<PBase, A>>(std::move(b));
+        p       = dynamic_cast<D*>(sp->get());
+        rel     = [sp] { sp->reset(); };
+        return true;
+    }
+
+    template <class A, bool AllowComposable = true, bool Smart = false>
     struct Comp : IComp
     {
         using traits  = fm::allocator_traits<A>;
@@ -264,6 +340,49 @@ namespace
         bool composable() override
         {
             return is_comp;
+        }
+        bool smart(const std::string& kind, int cls, std::size_t n, void*& p, std::size_t& cnt, std::size_t& sz,
+                   std::size_t& al, std::function<void()>& rel) override
+        {
+            return smart_impl(std::integral_constant<bool, Smart>{}, kind, cls, n, p, cnt, sz, al, rel);
+        }
+        bool smart_impl(std::false_type, const std::string&, int, std::size_t, void*&, std::size_t&, std::size_t&, std::size_t&,
+                        std::function<void()>&)
+        {
+            return false;
+        }
+        bool smart_impl(std::true_type, const std::string& kind, int cls, std::size_t n, void*& p, std::size_t& cnt,
+                        std::size_t& sz, std::size_t& al, std::function<void()>& rel)
+        {
+            if (kind == "ub")
+            {
+                switch (cls)
+                {
+                case 0:
+                    return make_base<PObj<8, 8>>(a, p, cnt, sz, al, rel);
+                case 1:
+                    return make_base<PObj<100, 16>>(a, p, cnt, sz, al, rel);
+                case 2:
+                    return make_base<PObj<4096, 8>>(a, p, cnt, sz, al, rel);
+                case 3:
+                    return make_base<PObj<70000, 8>>(a, p, cnt, sz, al, rel);
+                default:
+                    return make_base<PObj<40, 32>>(a, p, cnt, sz, al, rel);
+                }
+            }
+            switch (cls)
+            {
+            case 0:
+                return make_smart<Plain<1, 1>>(a, kind, n, p, cnt, sz, al, rel);
+            case 1:
+                return make_smart<Plain<24, 8>>(a, kind, n, p, cnt, sz, al, rel);
+            case 2:
+                return make_smart<Plain<100, 4>>(a, kind, n, p, cnt, sz, al, rel);
+            case 3:
+                return make_smart<Plain<70000, 16>>(a, kind, n, p, cnt, sz, al, rel);
+            default:
+                return make_smart<Plain<48, 16>>(a, kind, n, p, cnt, sz, al, rel);
+            }
         }
         void* an(std::size_t sz, std::size_t al) override
         {
@@ -354,17 +473,17 @@ namespace
         Made m;
         using namespace fm;
         if (name == "leaf")
-            m.c.reset(new Comp<leaf<1>>());
+            m.c.reset(new Comp<leaf<1>, true, true>());
         else if (name == "leaf_n")
-            m.c.reset(new Comp<leaf_n<1>>());
+            m.c.reset(new Comp<leaf_n<1>, true, true>());
         else if (name == "leaf_p")
             m.c.reset(new Comp<leaf_p<1>>());
         else if (name == "direct")
-            m.c.reset(new Comp<allocator_adapter<leaf<1>>>(leaf<1>{}));
+            m.c.reset(new Comp<allocator_adapter<leaf<1>>, true, true>(leaf<1>{}));
         else if (name == "direct_n")
             m.c.reset(new Comp<allocator_adapter<leaf_n<1>>>(leaf_n<1>{}));
         else if (name == "ref")
-            m.c.reset(new Comp<allocator_reference<leaf<1>>>(g_l1));
+            m.c.reset(new Comp<allocator_reference<leaf<1>>, true, true>(g_l1));
         else if (name == "ref_p")
             m.c.reset(new Comp<allocator_reference<leaf_p<1>>>(g_p1));
         else if (name == "anyref")
@@ -374,16 +493,16 @@ namespace
         else if (name == "anyref_p")
             m.c.reset(new Comp<any_allocator_reference, false>(g_p1)); // is_composable() is false at run time
         else if (name == "ts")
-            m.c.reset(new Comp<thread_safe_allocator<leaf<1>>>(leaf<1>{}));
+            m.c.reset(new Comp<thread_safe_allocator<leaf<1>>, true, true>(leaf<1>{}));
         else if (name == "ts_ref")
             m.c.reset(new Comp<allocator_storage<reference_storage<leaf<1>>, std::mutex>>(g_l1));
         else if (name == "aligned")
-            m.c.reset(new Comp<aligned_allocator<leaf<1>>>(32u, leaf<1>{}));
+            m.c.reset(new Comp<aligned_allocator<leaf<1>>, true, true>(32u, leaf<1>{}));
         else if (name == "aligned_n")
             m.c.reset(new Comp<aligned_allocator<leaf_n<1>>>(16u, leaf_n<1>{}));
         else if (name == "tracked")
         {
-            m.c.reset(new Comp<tracked_allocator<log_tracker, leaf<1>>>(log_tracker{}, leaf<1>{}));
+            m.c.reset(new Comp<tracked_allocator<log_tracker, leaf<1>>, true, true>(log_tracker{}, leaf<1>{}));
             m.tracker = true;
         }
         else if (name == "tracked_n")
@@ -397,7 +516,7 @@ namespace
             m.tracker = true;
         }
         else if (name == "seg2")
-            m.c.reset(new Comp<binary_segregator<threshold_segregatable<leaf<1>>, leaf<2>>>(
+            m.c.reset(new Comp<binary_segregator<threshold_segregatable<leaf<1>>, leaf<2>>, true, true>(
                 threshold(32u, leaf<1>{}), leaf<2>{}));
         else if (name == "seg3")
             m.c.reset(new Comp<segregator<threshold_segregatable<leaf<1>>, threshold_segregatable<leaf<2>>, leaf<3>>>(
@@ -407,7 +526,7 @@ namespace
                 threshold(24u, leaf_n<1>{}), leaf<2>{}));
         else if (name == "fb")
         {
-            m.c.reset(new Comp<fallback_allocator<leaf<1>, leaf<2>>>(leaf<1>{}, leaf<2>{}));
+            m.c.reset(new Comp<fallback_allocator<leaf<1>, leaf<2>>, true, true>(leaf<1>{}, leaf<2>{}));
             m.fallback = true;
         }
         else if (name == "fb_n")
@@ -480,7 +599,7 @@ namespace
         else if (name == "mra")
         {
             auto res = std::make_shared<memory_resource_adapter<leaf<1>>>(leaf<1>{});
-            m.c.reset(new Comp<memory_resource_allocator>(res.get()));
+            m.c.reset(new Comp<memory_resource_allocator, true, true>(res.get()));
             m.keep = res;
         }
         else if (name == "mra_shrinking")
@@ -532,6 +651,14 @@ namespace
         if (!m.c)
             return;
         IComp&              c = *m.c;
+        struct SmartHandle
+        {
+            int                   id;
+            std::function<void()> rel;
+            bool                  array;
+            std::size_t           n, sz, al;
+        };
+        std::vector<SmartHandle> smart_live;
         std::vector<Handle> live;
         int                 next_id = 0, call = 0;
         for (auto& cmd : x.cmds)
@@ -541,6 +668,46 @@ namespace
             {
                 g_leaf[cmd.arg(0)].cap = cmd.arg(1);
                 Ev("fill").i("L", cmd.arg(0)).i("cap", cmd.arg(1));
+                continue;
+            }
+            if (op == "uq" || op == "ua" || op == "sh" || op == "ub")
+            {
+                int         cls = static_cast<int>(cmd.arg(0));
+                std::size_t n   = static_cast<std::size_t>(cmd.arg(1, 3));
+                int         id  = ++call;
+                void*       p   = nullptr;
+                std::size_t cnt = 1, sz = 0, al = 1;
+                std::function<void()> rel;
+                // the request as the helper must make it is only known after the call: log it with the ret
+                Ev("call").i("id", id).s("op", op == "ua" ? "aa" : "an").u("n", 0).u("sz", 0).u("al", 0).i("h", 0);
+                bool        did = false;
+                std::string r   = classify([&] { did = c.smart(op, cls, n, p, cnt, sz, al, rel); });
+                if (r == "ok" && !did)
+                    r = "unsupported";
+                long blk = -1, off = 0;
+                int  h = 0;
+                if (p)
+                {
+                    world().project(p, blk, off);
+                    h = ++next_id;
+                    smart_live.push_back(SmartHandle{h, rel, op == "ua", cnt, sz, al});
+                }
+                Ev("sret").i("id", id).s("r", r).i("h", h).i("b", blk).i("off", off).u("n", cnt).u("sz", sz).u("al", al).u(
+                    "mis", p && al ? reinterpret_cast<std::uintptr_t>(p) % al : 0);
+                continue;
+            }
+            if (op == "rs")
+            {
+                if (smart_live.empty())
+                    continue;
+                std::size_t k  = static_cast<std::size_t>(cmd.arg(0)) % smart_live.size();
+                SmartHandle h  = smart_live[k];
+                smart_live.erase(smart_live.begin() + static_cast<long>(k));
+                int id = ++call;
+                Ev("call").i("id", id).s("op", h.array ? "da" : "dn").u("n", h.n).u("sz", h.sz).u("al", h.al).i("h", h.id);
+                std::string r = classify([&] { h.rel(); });
+                Ev("ret").i("id", id).s("r", r).i("h", h.id).i("b", -1).i("off", 0).u("len", 0).u("mis", 0).i("fn0", -1).i(
+                    "fn1", -1).i("bad", 0);
                 continue;
             }
             bool is_alloc = op == "an" || op == "aa" || op == "tn" || op == "ta";
@@ -615,6 +782,16 @@ namespace
             }
             else
                 Ev("badcmd").s("op", op);
+        }
+        while (!smart_live.empty())
+        {
+            SmartHandle h = smart_live.back();
+            smart_live.pop_back();
+            int id = ++call;
+            Ev("call").i("id", id).s("op", h.array ? "da" : "dn").u("n", h.n).u("sz", h.sz).u("al", h.al).i("h", h.id);
+            std::string r = classify([&] { h.rel(); });
+            Ev("ret").i("id", id).s("r", r).i("h", h.id).i("b", -1).i("off", 0).u("len", 0).u("mis", 0).i("fn0", -1).i(
+                "fn1", -1).i("bad", 0);
         }
         // release everything, the way it was obtained
         while (!live.empty())
